@@ -770,6 +770,14 @@ func ratio(nu, de *Cell, confidence float64, r *rand.Rand, ratios []float64) (ce
 	low = percentile(ratios, p)
 	high = percentile(ratios, 1-p)
 	center = median(ratios)
+	// For confidence*N < 1 the interpolated percentiles lie between the two
+	// middle ratios and can end up on the wrong side of the median.
+	if low > center {
+		low = center
+	}
+	if high < center {
+		high = center
+	}
 	return
 }
 
